@@ -625,6 +625,11 @@ pub fn run_hub_in(sc: &HubSc, w: World, init: BTreeMap<String, Vec<u8>>, hook: O
 /// The file a client path names: `.` and empty components do not count (`./f`, `d//f` and
 /// `d/./f` are spellings of `f` and `d/f`).
 pub fn norm_path(p: &str) -> String {
+    // (a path the hub refuses — absolute, or with a `..` component — names no hub file at all:
+    // it must not be folded onto the relative path that happens to have the same components)
+    if p.starts_with('/') || p.split('/').any(|c| c == "..") {
+        return p.to_string();
+    }
     p.split('/').filter(|c| !c.is_empty() && *c != ".").collect::<Vec<_>>().join("/")
 }
 
